@@ -36,5 +36,42 @@ fn main() {
         let code = flow.with_process(&process, "px_index").generate_embedded("h_paxos_flows");
         emit!("px_index", code);
     }
+    {
+        // the whole paxos_core program; its network channels are unnamed in paxos.rs, the embedded
+        // generator needs names: number them (labels only, the program is unchanged)
+        let mut flow = FlowBuilder::new();
+        let proposers = flow.cluster::<h_paxos_flows::Proposer>();
+        let acceptors = flow.cluster::<h_paxos_flows::Acceptor>();
+        h_paxos_flows::px_core(
+            &proposers,
+            &acceptors,
+            proposers.embedded_input::<u32>("payloads"),
+            acceptors.embedded_input::<usize>("checkpoint"),
+        );
+        let mut k = 0usize;
+        let built = flow.optimize_with(|ir| {
+            let mut seen = Default::default();
+            for root in ir.iter_mut() {
+                root.transform_bottom_up(
+                    &mut |_r| {},
+                    &mut |n| {
+                        if let hydro_lang::compile::ir::HydroNode::Network { name, .. } = n {
+                            if name.is_none() {
+                                *name = Some(format!("ch{k}"));
+                                k += 1;
+                            }
+                        }
+                    },
+                    &mut seen,
+                    false,
+                );
+            }
+        });
+        let code = built
+            .with_cluster(&proposers, "px_proposer")
+            .with_cluster(&acceptors, "px_acceptor")
+            .generate_embedded("h_paxos_flows");
+        emit!("px_core", code);
+    }
     std::fs::write(format!("{out_dir}/mods.rs"), mods).unwrap();
 }
